@@ -540,6 +540,10 @@ def c09_jobs(tier):
             script0="racq0,hold2", script1="racq0,hold1", script2="hold1,stop1,start1"),
         des("selfstop-p2", "endoflife", b, dl, procs=2, prios="0,0", budget=4, res=1, pool=2, ops=ops,
             script0="racq0,pacq2,tadd1,stopself", script1="waitp0,racq0,hold1"),
+        # holdings obtained by preemption (resource and pool units) and by a hand-over while waiting, held when the end comes
+        des("preemptor-ends-p3", "endoflife", b, dl, procs=3, prios="0,1,2", budget=4, res=1, pool=2,
+            ops="racq0,rpre0,rrel0,pacq1,ppre1,ppre2,prel1,hold0,hold1,stop2,stopself,exit,return,start2,int2",
+            script0="racq0,pacq2,hold2", script1="hold1,racq0,hold1", script2="hold1,rpre0,ppre1,exit"),
         # the waiter's side: its own timer (or an interrupt, or a resume) falls in the very instant in which the process it
         # waits for is stopped or ends; it is told once, and nothing of that wait can reach a later call
         des("waiter-timer-meets-end-p3", "endoflife,notif", b, dl, procs=3, prios="0,0,1", budget=4,
@@ -882,6 +886,12 @@ def c10_jobs(tier):
         # data arrays on both sides of their growth point (1023-2049 samples), copied onto targets with an earlier life
         dict(name="data-arrays", harness="c18_data", opts=dict(mode="big"), bound_min=0, bound_max=0, deadline=600,
              crash_is_violation=True),
+        # the statistics of short series with every pattern of durations (also none at all: total weight zero) where they
+        # are computed in practice, under the floating-point trap mask of an experiment
+        dict(name="data-series-fptrap", harness="c18_data", cfg="rel", opts=dict(mode="ts", maxlen=4, fptrap=1), bound_min=0,
+             bound_max=0, deadline=600, crash_is_violation=True),
+        dict(name="data-small-fptrap", harness="c18_data", cfg="rel", opts=dict(mode="small", maxlen=4, fptrap=1), bound_min=0,
+             bound_max=0, deadline=600, crash_is_violation=True),
     ]
     return jobs
 
@@ -1036,6 +1046,8 @@ def c15_jobs(tier):
             d["workers"] = workers
         return d
     jobs = [j("identity", mode="identity"), j("identity-O2", "rel", mode="identity"),
+            # very long runs: 2^32 + 4096 consecutive raw draws after one seeding (two seeds), each compared with the reference
+            dict(j("long-run-2^32", "rel", mode="longrun"), run_timeout=300, workers=2),
             # nothing but the seed: not what lies in memory next to an argument either (probability vectors handed over as
             # blocks of exactly n numbers, sums on both sides of one, every lattice draw; AddressSanitizer build)
             dict(name="argument-blocks", harness="c16_dist", cfg="asan", opts=dict(mode="aliasvec", maxn=4), bound_min=0,
